@@ -84,6 +84,15 @@ func VerifC03Index() {
 	T, M := vndParam("T"), vndParam("M")
 	menu, maxLen := vndParam("menu"), vndParam("maxLen")
 	created := false
+	// several indexes per column: a second index with its own (independently arbitrary) predicate,
+	// created before any data
+	var oracle2 func(vCell) bool
+	if vndParam("second") == 1 {
+		var rule2 func(Reader) bool
+		rule2, oracle2 = vPredicate(kind)
+		vndAssert(w.c.CreateIndex("idx2", "a", rule2) == nil, "CreateIndex failed")
+		vndAssert(replica.c.CreateIndex("idx2", "a", rule2) == nil, "CreateIndex failed")
+	}
 	if when != 1 {
 		vndAssert(w.c.CreateIndex("idx", "a", rule) == nil, "CreateIndex failed")
 		vndAssert(replica.c.CreateIndex("idx", "a", rule) == nil, "CreateIndex failed")
@@ -117,6 +126,10 @@ func VerifC03Index() {
 		}
 		w.checkIndex(w.c, "idx", oracle, "primary")
 		w.checkIndex(replica.c, "idx", oracle, "replica")
+		if oracle2 != nil {
+			w.checkIndex(w.c, "idx2", oracle2, "primary, second index")
+			w.checkIndex(replica.c, "idx2", oracle2, "replica, second index")
+		}
 	}
 	w.check(w.c, "values")
 	w.observe(w.c)
@@ -159,7 +172,21 @@ func VerifC19Trigger() {
 	vndAssert(w.c.CreateTrigger("trg", "a", clbk) == nil, "CreateTrigger failed")
 	T, M := vndParam("T"), vndParam("M")
 	menu, maxLen := vndParam("menu"), vndParam("maxLen")
+	// the trigger may be dropped after the first transaction, and created again after the second
+	life := 0 // 0 always there, 1 dropped after txn 0, 2 dropped after txn 0 and re-created after txn 1
+	if vndParam("life") == 1 {
+		life = 1 + vndChoice("life", 2)
+	}
+	present := true
 	for t := 0; t < T; t++ {
+		if life > 0 && t == 1 {
+			vndAssert(w.c.DropTrigger("trg") == nil, "DropTrigger failed")
+			present = false
+		}
+		if life == 2 && t == 2 {
+			vndAssert(w.c.CreateTrigger("trg", "a", clbk) == nil, "CreateTrigger failed")
+			present = true
+		}
 		abort := vndChoice("abort", 2) == 1
 		events = events[:0]
 		m := menu
@@ -179,6 +206,12 @@ func VerifC19Trigger() {
 		if abort {
 			w.clearPending()
 			vndAssert(len(events) == 0, "trigger called for a transaction that rolled back")
+			continue
+		}
+		if !present {
+			vndAssert(len(events) == 0, "a dropped trigger was called")
+			vndKnown("KF-merge-reorder", w.mergeReorder())
+			w.commitModel()
 			continue
 		}
 		// expected events, per row in issue order
